@@ -37,7 +37,7 @@ func runC03(c *core.Ctx) {
 	fieldKeyRule(c)
 	firstMatchRules(c)
 	namesOrderRule(c)
-	c.Doc("loops-progress", 3, "no loop of the package can go round without changing anything")
+	c.Doc("loops-progress", 1, "no loop of the package can go round without changing anything")
 	loopsProgress(c, "loops-progress", "hseq")
 	fmapRule(c)
 	offsRules(c)
